@@ -128,7 +128,8 @@ func ceaFor(reply int, dress int, hbh, e2e uint32) []byte {
 	case rSuccess:
 		return successCEA(dress, hbh, e2e)
 	case rFailure:
-		return peer.StdCEA(hbh, e2e, 5010)
+		// permanent, transient and protocol-error codes alike end the handshake
+		return peer.StdCEA(hbh, e2e, []uint32{5010, 3004, 5012, 4001, 3002, 5017, 3010, 4003}[dress%8])
 	case rNoResultCode:
 		return peer.Msg(0, 257, 0, hbh, e2e, append(append(id, rest...), peer.U32(peer.AuthApp, 4))...)
 	case rNoOriginHost:
@@ -738,6 +739,10 @@ func TestC12(t *testing.T) {
 	rec.Suite("scripts", len(scripts), func(c *ev.Case) {
 		sc := scripts[c.I]
 		c.Class("N=%d/at=%d/reply=%s/extras=%d/late=%v", sc.N, sc.atCER, rNames[sc.reply], len(sc.extras), sc.late > 0)
+		if sc.reply == rFailure {
+			sc.dress = c.I / 3
+			c.Class("failure-cea-code-index=%d", sc.dress%8)
+		}
 		if sc.reply == rSuccess {
 			sc.dress = (c.I + c.I/nC12Dress) % nC12Dress
 			if (sc.dress == 8 && sc.apps < 2) || (sc.dress >= 9 && sc.apps < 3) {
